@@ -124,11 +124,17 @@ func genBatch(r *rand.Rand, dir string, idx int) batchSpec {
 		}
 		sp.Jobs = jobs
 		sb.WriteString("rendezvous\ncheckown\n")
+		// a big tree: removing this work directory takes a while, so that ends of runs overlap with removals
+		if spec.BigName == "" && r.Intn(3) == 0 && (sp.Ending == "pass" || sp.Ending == "stop") {
+			fmt.Fprintf(&sb, "exec vhelper mktree big-%s 400\n", tok)
+			spec.BigName, spec.BigToken = name, tok
+		}
 		// read-only trees
 		if r.Intn(2) == 0 {
 			fmt.Fprintf(&sb, "mkdir ro-%s/deep\nexec vhelper touch ro-%s/deep/f ro-%s/g\nchmod 444 ro-%s/deep/f ro-%s/g\nchmod 555 ro-%s/deep\nchmod 555 ro-%s\n", tok, tok, tok, tok, tok, tok, tok)
 		}
 		addMark()
+		sb.WriteString("endgate\n")
 		switch sp.Ending {
 		case "fail-wait":
 			// a plain wait that fails on an early job while later jobs are still running:
@@ -240,7 +246,7 @@ func main() {
 		nb := r.Pick(40, 600)
 		racePrefix := filepath.Join(base, "race")
 		seen := map[string]int{}
-		var nScripts, nRendez, nRealT int
+		var nScripts, nRendez, nRealT, nOverlapEnds int
 		report := func(kind string, c ccase) {
 			seen[kind]++
 			if seen[kind] > 3 {
@@ -361,6 +367,7 @@ func main() {
 				if spec.Parallel && br.RendezvousComplete == 1 {
 					nRendez++
 				}
+				nOverlapEnds += br.OverlapEnds
 				for _, sp := range spec.Scripts {
 					r.Eval(1)
 					nScripts++
@@ -487,6 +494,7 @@ func main() {
 		}
 		r.Set("batches", nb)
 		r.Set("script_runs", nScripts)
+		r.Set("script_ends_orchestrated_to_overlap_a_removal", nOverlapEnds)
 		r.Set("batches_also_run_on_the_real_testing_T", nRealT)
 		r.Set("parallel_batches_with_complete_rendezvous", nRendez)
 		r.ReportRaces(racePrefix)
